@@ -37,9 +37,11 @@ class Shuffle(zope.testrunner.feature.Feature):
                 # Layers run in subprocesses must be shuffled with this very
                 # seed (the one we report), not with one derived from their
                 # own clock: hand it down with the arguments they get.
-                runner.options.original_testrunner_args = (
-                    list(runner.options.original_testrunner_args) +
-                    ['--shuffle-seed=%d' % self.seed])
+                # (Right after the program name: behind a ``--`` it would
+                # be taken for a positional filter.)
+                args = list(runner.options.original_testrunner_args)
+                args.insert(1, '--shuffle-seed=%d' % self.seed)
+                runner.options.original_testrunner_args = args
 
     def global_setup(self):
         rng = random.Random(self.seed)
